@@ -268,6 +268,31 @@ func createThenTouch(r *Rng, c *diffCase, a *Asm) {
 	}
 }
 
+// selfdestructSeries: two contracts that destroy themselves in favour of each other, of themselves, of the sender or of a
+// stranger, called several times in one transaction from the start of the root contract — the refund (before London) is due
+// once per destroyed contract, whoever the beneficiary is and whatever happened to the beneficiary before. The fork is moved to
+// one of the rule sets whose SELFDESTRUCT pricing differs (Istanbul, Berlin, London) half of the time.
+func selfdestructSeries(r *Rng, c *diffCase, a *Asm) {
+	if r.Bool() {
+		c.fork = []string{"Istanbul", "Berlin", "Berlin", "London"}[r.Intn(4)]
+	}
+	d := []common.Address{common.BytesToAddress([]byte{0xc0, 0xdd, 1}), common.BytesToAddress([]byte{0xc0, 0xdd, 2})}
+	bens := []common.Address{d[0], d[1], callerAddr, common.BytesToAddress([]byte{0xd8, 0x01}), c.root}
+	for _, x := range d {
+		b := bens[r.Intn(len(bens))]
+		code := &Asm{}
+		if r.Chance(30) {
+			code.PushU(1).PushU(uint64(r.Intn(3))).Op(opSSTORE)
+		}
+		code.PushBytes(b[:]).Op(opSELFDESTRUCT)
+		c.codes[x] = code.Bytes()
+	}
+	for k := 2 + r.Intn(3); k > 0; k-- {
+		t := d[r.Intn(2)]
+		a.PushU(0).PushU(0).PushU(0).PushU(0).PushU(uint64([]int{0, 0, 1}[r.Intn(3)])).PushBytes(t[:]).Op(opGAS, opCALL, opPOP)
+	}
+}
+
 type diffCase struct {
 	fork     string
 	codes    map[common.Address][]byte
@@ -661,6 +686,9 @@ func driveDiff(seed uint64, n int, size int, em *Emitter) {
 			if k == 0 && r.Chance(30) {
 				createThenTouch(r, c, pre)
 				em.Count("diff:create-then-touch")
+			} else if k == 0 && r.Chance(15) {
+				selfdestructSeries(r, c, pre)
+				em.Count("diff:selfdestruct-series:" + c.fork)
 			}
 			c.codes[a] = randomCodeFrom(pre, r, 3+r.Intn(size+10), targets)
 		}
@@ -743,7 +771,7 @@ func driveDiff(seed uint64, n int, size int, em *Emitter) {
 			tc := &diffCase{fork: fk, codes: g.codes, root: rootA, input: c.input, value: big.NewInt(0), jpOn: c.jpOn}
 			cfgs := []struct{ n, cfg string }{{"callTracer", `{"withLog":true}`}, {"callTracer", `{}`}, {"flatCallTracer", `{}`}, {"prestateTracer", `{"diffMode":true}`}}
 			t := cfgs[r.Intn(len(cfgs))]
-			if r.Chance(60) {
+			if r.Chance(40) {
 				t = cfgs[0]
 			}
 			tv := runTracerPair(tc, t.n, t.cfg, 30_000_000)
@@ -758,10 +786,49 @@ func driveDiff(seed uint64, n int, size int, em *Emitter) {
 				em.Op("C03,C18", "S tracer-no-panic "+t.n, "ok")
 			}
 		}
+		// C18: a deep call spine with several sibling calls at every level (the flat tracer's trace addresses grow by one per
+		// level; siblings share their parent's prefix)
+		if i%5 == 0 {
+			levels := 4 + r.Intn(7)
+			dc := &diffCase{fork: forkNames[4+r.Intn(8)], codes: map[common.Address][]byte{}, value: big.NewInt(0), jpOn: r.Bool()}
+			lv := func(k int) common.Address { return common.BytesToAddress([]byte{0xc0, 7, byte(k)}) }
+			leaf := common.BytesToAddress([]byte{0xc0, 7, 0xff})
+			dc.codes[leaf] = [][]byte{{opSTOP}, {opPUSH1, 0, opPUSH1, 0, opREVERT}, {opPUSH1, 1, opPUSH1, 0, opSSTORE, opSTOP}}[r.Intn(3)]
+			for k := 0; k < levels; k++ {
+				a := &Asm{}
+				m := 1 + r.Intn(3)
+				spine := r.Intn(m)
+				for j := 0; j < m; j++ {
+					t := leaf
+					if j == spine && k+1 < levels {
+						t = lv(k + 1)
+					}
+					kind := []byte{opCALL, opCALL, opSTATICCALL, opDELEGATECALL, opCALLCODE}[r.Intn(5)]
+					a.PushU(0).PushU(0).PushU(0).PushU(0)
+					if kind == opCALL || kind == opCALLCODE {
+						a.PushU(0)
+					}
+					a.PushBytes(t[:]).Op(opGAS, kind, opPOP)
+				}
+				a.Op([]byte{opSTOP, opSTOP, opINVALID}[r.Intn(3)])
+				dc.codes[lv(k)] = a.Bytes()
+			}
+			dc.root = lv(0)
+			cfgs := []struct{ n, cfg string }{{"flatCallTracer", `{}`}, {"flatCallTracer", `{"includePrecompiles":true}`}, {"callTracer", `{}`}, {"callTracer", `{"withLog":true}`}}
+			t := cfgs[r.Intn(len(cfgs))]
+			tv := runTracerPair(dc, t.n, t.cfg, 30_000_000)
+			if tv == "same:upstream_itself_panics" {
+				em.Count("diff:tracer:out-of-scope:upstream-v1.12.0-panics")
+				tv = "same"
+			}
+			em.Op("C18", "S tracer-same-spine "+t.n, tv)
+			em.Count(fmt.Sprintf("diff:spine:levels=%d", levels))
+		}
 		// C18: inherited tracers produce upstream's output when no Aspect is involved
 		if i%3 == 0 && !c.create && forkIndex(c.fork) >= 1 {
 			names := []struct{ n, cfg string }{{"callTracer", `{"withLog":true}`}, {"callTracer", `{"onlyTopCall":true}`}, {"flatCallTracer", `{}`},
-				{"flatCallTracer", `{"includePrecompiles":true,"convertParityErrors":true}`}, {"4byteTracer", `{}`}, {"prestateTracer", `{}`}, {"prestateTracer", `{"diffMode":true}`}}
+				{"flatCallTracer", `{"includePrecompiles":true,"convertParityErrors":true}`}, {"4byteTracer", `{}`}, {"prestateTracer", `{}`}, {"prestateTracer", `{"diffMode":true}`},
+				{"muxTracer", `{"callTracer":{"withLog":true},"4byteTracer":{},"prestateTracer":{"diffMode":true}}`}, {"noopTracer", `{}`}}
 			t := names[r.Intn(len(names))]
 			tracerLine := func(label string, verdict string) {
 				if verdict == "same:upstream_itself_panics" {
@@ -787,6 +854,17 @@ func driveDiff(seed uint64, n int, size int, em *Emitter) {
 			tracerLine(t2.n+" self-call", runTracerPairFrom(&sc, t2.n, t2.cfg, gas, c.root, false))
 			tracerLine(t2.n+" create", runTracerPairFrom(&sc, t2.n, t2.cfg, gas, callerAddr, true))
 			em.Op("C18", "S tracer-same structLogger", runStructLoggerPair(c, gas))
+			// the loggers that are constructed directly: access-list tracer with a prior list, JSON logger
+			for k := 0; k < 2; k++ {
+				ac := *c
+				ac.create = k == 1 && r.Chance(50)
+				av, mop, mimpl := runAccessListPair(r, &ac, gas)
+				tracerLine("accessListTracer", av)
+				if !strings.Contains(mop, "overflow") && !strings.HasPrefix(av, "fork_tracer_panics") {
+					em.Op("C18", mop, mimpl)
+				}
+			}
+			tracerLine("jsonLogger", runJSONLoggerPair(r, c, gas))
 		}
 	}
 }
